@@ -41,6 +41,7 @@ def tokenize(e):
     e = re.sub(r"std::max\b", "maxK", e)
     e = re.sub(r"std::min\b", "minK", e)
     e = re.sub(r"std::abs\b", "abs", e)
+    e = re.sub(r"\bImpl::eq_t\s*<\s*T\s*,\s*style\s*>\s*::\s*eq\b", "CALL_eq", e)
     e = re.sub(r"\b(eq|ne|lt|gt|le|ge)\s*<\s*T\s*,\s*style\s*>", r"CALL_\1", e)
     pos, out = 0, []
     while pos < len(e):
